@@ -55,17 +55,17 @@ class Ctx:
         return self.shims[config]
     # verification-type operations whose documentation does not restrict the context: a sample of the calls made by any check is
     # repeated on a byte copy of secp256k1_context_static and must give the same reply without an illegal-argument report
-    MIRROR_STATIC = frozenset(("ecdsa_verify", "schnorr_verify", "adaptor_verify", "wl_verify", "surj_verify", "rangeproof_verify", "halfagg_verify",
-                               "musig_partial_sig_verify", "s2c_verify_commit", "ae_host_verify", "ecdsa_recover", "pedersen_verify_tally",
-                               "xonly_tweak_add_check", "pubkey_parse", "xonly_parse", "sig_parse_der", "sig_parse_compact", "pubkey_combine", "pubkey_tweak_add", "pubkey_tweak_mul"))
-    def _mirror(self, s, op, args, config, r):
-        # the header's own rule decides whether a function may be given the static context (same parser as the C20 check)
-        if not hasattr(self, "_restricted"):
+    def _static_ok(self, op):
+        """op maps to a public API function whose documentation does not say '(not secp256k1_context_static)' (the header's own rule,
+        parsed by the C20 check)"""
+        if not hasattr(self, "_static_ops"):
             try:
                 from props import c20
-                self._restricted = set(o for o, api in c20.OP_API.items() if api in c20.restricted_functions(self.repo)[0])
-            except Exception: self._restricted = set()
-        if op in self._restricted: return
+                restricted = c20.restricted_functions(self.repo)[0]
+                self._static_ops = set(o for o, api in c20.OP_API.items() if api not in restricted and o not in c20.INTERNAL)
+            except Exception: self._static_ops = set()
+        return op in self._static_ops
+    def _mirror(self, s, op, args, config, r):
         key = (config, s.nstarts)
         if getattr(self, "_static_key", None) != key:
             try: sc = s.call("ctx_static_copy")
@@ -102,7 +102,7 @@ class Ctx:
                 r0 = s.call(op, *args, ctx=None)
                 if not r0.ill and not r0.err: self._mirror_alt(s, op, args, config, r0)
             except ShimCrash: pass
-        if c is None and op in self.MIRROR_STATIC and ill == 0 and self.rng.random() < 0.03:
+        if c is None and ill == 0 and self.rng.random() < 0.03 and self._static_ok(op):
             try:
                 r0 = s.call(op, *args, ctx=None)
                 if not r0.ill and not r0.err: self._mirror(s, op, args, config, r0)
